@@ -411,6 +411,7 @@ func vfChildMain(t *testing.T, c *vfCheck) {
 		only, _ = strconv.Atoi(s)
 	}
 	n := c.Units(tier, seed)
+	poisoned := false
 	for i := 0; i < n; i++ {
 		if only >= 0 {
 			if i != only {
@@ -422,7 +423,27 @@ func vfChildMain(t *testing.T, c *vfCheck) {
 		u := newUnit(c, i, tier, seed, journal, t)
 		u.skipCases = skipCases[i]
 		u.Journal("unit-start")
-		res := runUnit(c, u)
+		var res vfUnitResult
+		if poisoned {
+			// an earlier unit of this process reported calls that never return: goroutines of the
+			// package are left behind and package-level state may be affected. The verdict is already
+			// a violation; later units only get a bounded chance to add to it.
+			ch := make(chan vfUnitResult, 1)
+			go func() { ch <- runUnit(c, u) }()
+			select {
+			case res = <-ch:
+			case <-time.After(3 * time.Minute):
+				out.Write([]byte("{\"unit\":-1,\"final\":true}\n"))
+				return
+			}
+		} else {
+			res = runUnit(c, u)
+		}
+		for _, v := range res.Violations {
+			if strings.Contains(v.Key, "hang") || strings.Contains(v.Key, "stuck") || strings.Contains(v.Key, "wedged") {
+				poisoned = true
+			}
+		}
 		line, err := json.Marshal(res)
 		if err != nil {
 			line, _ = json.Marshal(vfUnitResult{Unit: i, Done: true, Violations: []vfViolation{{Key: "harness-marshal", What: err.Error(), Unit: i}}})
